@@ -145,29 +145,42 @@ func (c *TreeCacheClientImpl) ReadCurrentUpdatesHighestPriorities(ctx context.Co
 
 func (c *TreeCacheClientImpl) ReadUpdatesOwner(ctx context.Context, owner string) UpdateSlice {
 
-	ownerPaths := c.getPathsOfOwner(ctx, owner)
+	// the cache honours the owner only together with a specific priority,
+	// hence the owners paths are read per priority they are stored with.
+	ownerPathsPerPrio := c.getPathsOfOwnerPerPriority(ctx, owner)
 
-	return c.Read(ctx, &cache.Opts{
-		Store: cachepb.Store_INTENDED,
-		Owner: owner,
-	}, ownerPaths.paths.ToStringSlice())
+	result := UpdateSlice{}
+	for prio, ownerPaths := range ownerPathsPerPrio {
+		result = append(result, c.Read(ctx, &cache.Opts{
+			Store:    cachepb.Store_INTENDED,
+			Owner:    owner,
+			Priority: prio,
+		}, ownerPaths.paths.ToStringSlice())...)
+	}
+	return result
 }
 
-func (c *TreeCacheClientImpl) getPathsOfOwner(ctx context.Context, owner string) *PathSet {
+// getPathsOfOwnerPerPriority returns the paths of the owner, grouped by the priority they are stored with
+func (c *TreeCacheClientImpl) getPathsOfOwnerPerPriority(ctx context.Context, owner string) map[int32]*PathSet {
 	if c.intendedStoreIndex == nil {
 		c.RefreshCaches(ctx)
 	}
 
-	p := NewPathSet()
+	result := map[int32]*PathSet{}
 	for _, keyMeta := range c.intendedStoreIndex {
 		for _, k := range keyMeta {
-			if k.Owner() == owner {
-				// if the key is not yet listed in the keys slice, add it otherwise skip
-				p.AddPath(k.GetPath())
+			if k.Owner() != owner {
+				continue
 			}
+			ps, exists := result[k.Priority()]
+			if !exists {
+				ps = NewPathSet()
+				result[k.Priority()] = ps
+			}
+			ps.AddPath(k.GetPath())
 		}
 	}
-	return p
+	return result
 }
 
 // ReadRunning reads the value from running if the value does not exist, nil is returned
